@@ -149,3 +149,11 @@ Theorem C14_fgg_roundtrip_refuted :
   forall dec, exists j, fgg_to_json_model dec f20_fgg = Ok j /\ json_to_fgg_model 0 j = Err KeyErr.
 Proof. exact (conj f20_wf f20_refuted). Qed.
 Print Assumptions C14_fgg_roundtrip_refuted.
+
+(** F21 (found by this check): a finite factor whose weights have shape (0, 3) is written as the
+    empty list and read back with shape (0,): ValueError *)
+Theorem C14_fgg_roundtrip_empty_domain_refuted :
+  forall dec, wf_hrg f21_hrg = true /\
+    exists j, fgg_to_json_model dec f21_fgg = Ok j /\ json_to_fgg_model 0 j = Err ValueErr.
+Proof. exact f21_refuted. Qed.
+Print Assumptions C14_fgg_roundtrip_empty_domain_refuted.
